@@ -456,11 +456,17 @@ func validatorCase0(h *hctx, n, localIdx, pubIdx int, msg []byte, nonce uint64, 
 			return true
 		}},
 		{"proof-sibling-flip", func(u *propeller.Unit, _ *peer.ID, _ int) bool {
+			if len(u.MerkleProof.Siblings) == 0 {
+				return false
+			}
 			j := r.Intn(len(u.MerkleProof.Siblings))
 			u.MerkleProof.Siblings[j][r.Intn(32)] ^= 1 << uint(r.Intn(8))
 			return true
 		}},
 		{"proof-drop-last", func(u *propeller.Unit, _ *peer.ID, _ int) bool {
+			if len(u.MerkleProof.Siblings) == 0 {
+				return false
+			}
 			u.MerkleProof.Siblings = u.MerkleProof.Siblings[:len(u.MerkleProof.Siblings)-1]
 			return true
 		}},
